@@ -596,8 +596,251 @@ def report_partition(a):
         a.candidates.append(c)
 
 
+# --------------------------------------------------------------------------------------------------
+# C15: variable resolution through the scope chain, parameterised rule calls
+# --------------------------------------------------------------------------------------------------
+SCOPE_IMPL = r"(?:rules::)?eval_context::<impl at guard/src/rules/eval_context\.rs:\d+:\d+: \d+:\d+>::"
+
+
+def scope_resolution(a):
+    SC = struct_fields(a.src, "rules/eval_context.rs", "Scope")
+    AQ = struct_fields(a.src, "rules/exprs.rs", "AccessQuery")
+    for label, selfty, has_parent in (("BlockScope", "BlockScope", True), ("RootScope", "RootScope", False)):
+        ex = a.exec(SCOPE_IMPL + "resolve_variable",
+                    {"get": mirexec.m_option, "query_retrieval": m_result_opq, "resolve_function": m_result_opq,
+                     "resolve_variable": m_result_opq, "root": lambda ex, av: ex.opq(), RC_NEW: mirexec.m_identity},
+                    log=("insert",), unroll=1, max_paths=20000, first_arg_re=r"_1: &mut (?:eval_context::)?" + selfty)
+        a.fns.append(f"rules::eval_context::{label}::resolve_variable")
+        me, name = ex.arg_env["_1"], ex.arg_env["_2"]
+        scope = field(ex, me, 0, "Scope")
+        maps = {k: field(ex, scope, SC.index(k), "HashMap") for k in ("literals", "resolved_variables", "function_expressions", "variable_queries")}
+        bad = []
+        for p in ex.paths:
+            r = p.ret
+            if not r or r[0] != "enum" or r[1] != "Result":
+                bad.append(pc_term(p.pc))
+                continue
+            gets = calls(p, "get")
+            probs = []
+            found = {}
+            for g in gets:
+                which = [k for k, v in maps.items() if same(g[2][0], v)]
+                if not which or len(g[2]) < 2 or not same(g[2][1], name):
+                    probs.append("lookup in another map / under another name")
+                    continue
+                found[which[0]] = g[3][2]           # tag term: 1 = Some
+            par = calls(p, "resolve_variable")
+            qr = calls(p, "query_retrieval")
+            parts = []
+            if par:
+                # the enclosing scope is consulted only when this scope defines nothing by that name (inner shadows outer),
+                # with the same name, and its answer is passed on unchanged
+                if not has_parent or len(par) != 1 or not same(par[0][2][-1], name) or r != par[0][3] or set(found) != set(maps):
+                    probs.append("parent delegation")
+                parts += [f"(= {t} 0)" for t in found.values()]
+            if qr:
+                q = qr[0]
+                vq = [g for g in gets if same(g[2][0], maps["variable_queries"])]
+                roots = calls(p, "root")
+                ok = (len(qr) == 1 and len(q[2]) == 4 and q[2][0] == ("int", "0") and same(q[2][3], me) and vq
+                      and ((same(q[2][2], roots[0][3]) and same(roots[0][2][0], me)) if roots
+                           else same(q[2][2], field(ex, scope, SC.index("root"), "Rc"))))
+                qv = vq[-1][3][3].get("Some") if vq else None
+                ok = ok and qv is not None and same(q[2][1], field(ex, qv, AQ.index("query"), "Vec"))
+                if not ok:
+                    probs.append("variable query is not evaluated from position 0 against this scope's own root with this scope as resolver")
+                parts.append(f"(= {vq[-1][3][2]} 1)" if vq else "false")
+                parts += [f"(= {found[k]} 0)" for k in ("literals", "resolved_variables") if k in found]
+                parts.append(f"(=> (= {q[3][2]} 1) (= {r[2]} 1))")
+            if not par and not qr and not calls(p, "resolve_function"):
+                # answered from the literals / the cache, or an error because nothing defines the name
+                some = "(or false " + " ".join(f"(= {t} 1)" for t in found.values()) + ")"
+                parts.append(f"(= (= {r[2]} 0) {some})")
+            good = "false" if probs else "(and true " + " ".join(parts) + ")"
+            bad.append(f"(and {pc_term(p.pc)} (not {good}))")
+        c = a.discharge(f"{label}::resolve_variable/lookup", ex, bad,
+                        f"{label}: a variable is looked up under its own name in this scope's literals, cache, function and query tables; "
+                        + ("the enclosing scope is asked (same name, answer passed on unchanged) only if none of them defines it - inner "
+                           "definitions shadow outer ones; " if has_parent else "a name nobody defines is an error; ")
+                        + "a query variable is evaluated from position 0 against THIS scope's root value with this scope as resolver, and "
+                        "an evaluation error is returned as an error")
+        if c:
+            c["replay"] = replay_variables(a)
+            c["reproduced"] = c["replay"].get("reproduced", False)
+            a.candidates.append(c)
+
+
+def replay_variables(a):
+    exe = a.cli()
+    if not exe:
+        return {"reproduced": False, "note": "native build failed"}
+    data = '{"a": 1,\n "b": 2, "L": [ {"a": 5, "c": 5}, {"a": 6, "c": 6} ], "M": {"a": 7}}\n'
+    cases = [("let v = a\nrule t {\n  %v == 1\n}\n", "PASS"), ("let v = 1\nrule t {\n  a == %v\n}\n", "PASS"),
+             ("let v = a\nrule t {\n  let v = b\n  %v == 2\n}\n", "PASS"),
+             ("let v = a\nrule t {\n  L[*] {\n    let v = a\n    %v == c\n  }\n}\n", "PASS"),
+             ("let v = a\nrule t {\n  L[*] {\n    %v == 1\n  }\n}\n", "PASS"),
+             ("let v = a\nrule t {\n  M {\n    let w = a\n    %w == 7\n    %v == 1\n  }\n}\n", "PASS"),
+             ("let unused = zzz\nrule t {\n  a == 1\n}\n", "PASS"),
+             ("let v = a\nrule t {\n  %v == 1\n  %v == 1\n}\nrule u {\n  %v == 2\n}\n", "PASS")]
+    out = []
+    for rules, exp in cases:
+        rc, rep, err = a.run_structured(exe, rules, [data])
+        if not (rep and isinstance(rep, list) and rep):
+            out.append({"rules_file": rules, "problem": "no report", "exit": rc, "stderr": (err or "")[-200:]})
+            continue
+        r = rep[0]
+        got = "PASS" if "t" in r.get("compliant", []) else ("SKIP" if "t" in r.get("not_applicable", []) else "FAIL")
+        if got != exp:
+            out.append({"rules_file": rules, "expected": exp, "observed": got})
+    real = [o for o in out if "problem" not in o]
+    return {"reproduced": bool(real), "mismatches": out[:4], "data": data}
+
+
+def param_rule_call(a):
+    PR = struct_fields(a.src, "rules/exprs.rs", "ParameterizedRule")
+    ex = a.exec(r"(?:(?:rules::)?eval::)?eval_parameterized_rule_call",
+                {"find_parameterized_rule": m_result_opq, "query": m_result_opq, "resolve_function": m_result_opq,
+                 "eval_rule": mirexec.m_result_status, "next": mirexec.m_iter_next, "iter": mirexec.m_new_iter,
+                 "into_iter": mirexec.m_new_iter, "as_str": mirexec.m_identity, RC_NEW: mirexec.m_identity,
+                 "with_capacity": lambda ex, av: ex.opq()},
+                log=("insert",), unroll=2, max_paths=40000)
+    a.fns.append("rules::eval::eval_parameterized_rule_call")
+    bad, nins = [], 0
+    for p in ex.paths:
+        r = p.ret
+        if p.outcome == "panic":
+            bad.append(pc_term(p.pc))        # parameter_names[idx] must be in bounds (arity was compared)
+            continue
+        if not r or r[0] != "enum" or r[1] != "Result":
+            bad.append(pc_term(p.pc))
+            continue
+        fr = calls(p, "find_parameterized_rule")
+        er = calls(p, "eval_rule")
+        ins = calls(p, "insert")
+        nins += len(ins)
+        probs = []
+        if len(fr) != 1:
+            bad.append(pc_term(p.pc))
+            continue
+        prule = fr[0][3][3]["Ok"]
+        names = field(ex, prule, PR.index("parameter_names"), "Vec")
+        its = iterations(ex, p)
+        # k-th parameter value is stored under the k-th parameter name
+        for j, e in enumerate(ins):
+            key = e[2][1] if len(e[2]) > 1 else None
+            want = ex.proj.get((names[1], f"[{j}]")) if names[0] == "opaque" else None
+            if j >= len(its) or want is None or not same(key, want):
+                probs.append("argument stored under another parameter's name")
+        if er:
+            e = er[0]
+            ok = (len(er) == 1 and same(e[2][0], field(ex, prule, PR.index("rule"), "Rule")) and r == e[3])
+            ctx = e[2][1] if len(e[2]) > 1 else None
+            if ctx is not None and ctx[0] == "struct":
+                mp = ctx[2].get("resolved_parameters")
+                ok = ok and all(same(i_[2][0], mp) for i_ in ins) and same(ctx[2].get("parent"), ex.arg_env["_2"])
+            else:
+                ok = False
+            if not ok:
+                probs.append("the called rule is not evaluated in a context holding exactly the bound arguments")
+            n_it = "(+ 0 0 " + " ".join(f"(ite (= {t} 1) 1 0)" for _k, _e, t, _i in its) + ")"
+            good = f"(= {n_it} {len(ins)})"
+        else:
+            good = f"(= {r[2]} 1)"
+        bad.append(f"(and {pc_term(p.pc)} (not {'false' if probs else good}))")
+    a.discharge("eval_parameterized_rule_call/binding", ex, bad,
+                f"call of a parameterised rule with <= 2 arguments ({nins} bindings over all paths): an arity mismatch or a failing "
+                "argument query is an error and the rule is not evaluated; otherwise the k-th argument's value is bound to the k-th "
+                "parameter name, the called rule's body is evaluated once in a context holding exactly these bindings on top of the "
+                "caller's context, and its status is returned unchanged")
+
+
+def report_rule_listing(a):
+    """report_all_failed_clauses_for_rules over one record: a FAIL rule record is always listed (one ClauseReport::Rule with
+    that rule's name), whatever its children yield; a PASS / SKIP rule record contributes nothing"""
+    RT = enum_variants(a.src, "rules/mod.rs", "RecordType")
+    ER = struct_fields(a.src, "rules/eval_context.rs", "EventRecord")
+    NS = struct_fields(a.src, "rules/mod.rs", "NamedStatus")
+    ex = a.exec(r"(?:(?:rules::)?eval_context::)?report_all_failed_clauses_for_rules",
+                {"next": mirexec.m_iter_next, "into_iter": mirexec.m_new_iter, "iter": mirexec.m_new_iter,
+                 "report_all_failed_clauses_for_rules": lambda ex, av: ex.opq(), "default": lambda ex, av: ex.opq()},
+                log=("push", "extend"), unroll=1, max_paths=60000)
+    a.fns.append("rules::eval_context::report_all_failed_clauses_for_rules (rule records)")
+    bad, nrule = [], 0
+    for p in ex.paths:
+        its = iterations(ex, p, it_filter=lambda ev: ex.iter_src.get(ev[2][0][1], ev[2][0]) == ex.arg_env["_1"])
+        if p.outcome != "return":
+            # unreachable!() arms for literal values etc. are not about rule records: only demand that a rule record never panics
+            for k, el, tag, _i in its[-1:]:          # the record being processed when the path ends
+                cont = field(ex, el, ER.index("container"), "Option")
+                some = payload(ex, cont, "Some")
+                isrule = f"(and (= {tag} 1) (= {disc(ex, cont)} 1) (= {disc(ex, some)} {RT.index('RuleCheck')}))"
+                bad.append(f"(and {pc_term(p.pc)} {isrule})")
+            continue
+        it_idx = {i: k for k, _el, _t, i in its}
+        cur, per = None, {}
+        for i, e in enumerate(p.events):
+            if i in it_idx:
+                cur = it_idx[i]
+            if e[0] == "call" and e[1] in ("push", "extend") and e[2] and e[2][0] == p.ret:
+                per.setdefault(cur, []).append(e)
+        parts = []
+        for k, el, tag, _i in its:
+            cont = field(ex, el, ER.index("container"), "Option")
+            some = payload(ex, cont, "Some")
+            ns = payload(ex, some, "RuleCheck")
+            isrule = f"(and (= {tag} 1) (= {disc(ex, cont)} 1) (= {disc(ex, some)} {RT.index('RuleCheck')}))"
+            st = field(ex, ns, NS.index("status"), "rules::Status")
+            nm = field(ex, ns, NS.index("name"), "&str")
+            evs = per.get(k, [])
+            listed = (len(evs) == 1 and evs[0][1] == "push" and len(evs[0][2]) == 2 and evs[0][2][1][0] == "variant"
+                      and evs[0][2][1][2] == "Rule" and evs[0][2][1][3] and evs[0][2][1][3][0][0] == "struct"
+                      and same(evs[0][2][1][3][0][2].get("name"), nm))
+            nrule += 1
+            parts.append(f"(=> (and {isrule} (= {st[2]} {a.F})) {'true' if listed else 'false'})")
+            parts.append(f"(=> (and {isrule} (not (= {st[2]} {a.F}))) {'true' if not evs else 'false'})")
+        good = "(and true " + " ".join(parts) + ")"
+        bad.append(f"(and {pc_term(p.pc)} (not {good}))")
+    c = a.discharge("report_all_failed_clauses_for_rules/rule-listing", ex, bad,
+                    "report builder over one record (children's reports modelled as an arbitrary list, possibly empty): a RuleCheck "
+                    "record with status FAIL always yields exactly one Rule entry carrying that rule's name - also when no individual "
+                    "check can be shown for it; a RuleCheck record with status PASS or SKIP yields nothing; a rule record never panics")
+    if c:
+        c["replay"] = replay_fail_rule_listed(a)
+        c["reproduced"] = c["replay"].get("reproduced", False)
+        a.candidates.append(c)
+
+
+def replay_fail_rule_listed(a):
+    exe = a.cli()
+    if not exe:
+        return {"reproduced": False, "note": "native build failed"}
+    data = '{"Resources": {"q": {"Type": "AWS::SQS::Queue", "Properties": {"x": 1}}},\n "a": 1}\n'
+    rules_list = [
+        "rule no_checks {\n  Resources.*[ Type == 'AWS::S3::Bucket' ] !empty { Properties exists }\n}\nrule ok { a == 1 }\nrule skipped when a == 2 { a == 1 }\n",
+        "rule plain { a == 2 }\nrule ok { a == 1 }\n",
+        "rule nested {\n  a == 1\n  Resources.* { Properties.x == 2 or Properties.y exists }\n}\n",
+    ]
+    expect = [{"no_checks": "FAIL", "ok": "PASS", "skipped": "SKIP"}, {"plain": "FAIL", "ok": "PASS"}, {"nested": "FAIL"}]
+    out = []
+    for rules, exp in zip(rules_list, expect):
+        rc, rep, err = a.run_structured(exe, rules, [data])
+        if not (rep and isinstance(rep, list) and rep):
+            out.append({"rules_file": rules, "problem": "no report", "exit": rc})
+            continue
+        r = rep[0]
+        buckets = {"PASS": set(r.get("compliant", [])), "SKIP": set(r.get("not_applicable", [])),
+                   "FAIL": {x["Rule"]["name"] for x in r.get("not_compliant", []) if "Rule" in x}}
+        for name, st in exp.items():
+            where = [b for b, names in buckets.items() if name in names]
+            if where != [st]:
+                out.append({"rules_file": rules, "rule": name, "expected_in": st, "found_in": where, "report_status": r.get("status")})
+    real = [o for o in out if "problem" not in o]
+    return {"reproduced": bool(real), "mismatches": out[:4], "data": data}
+
+
 SITES = {
     "C06": [structured_report, junit_exit_code, junit_test_case, validate_execute_step],
     "C12": [structured_report, junit_test_case, data_input_wiring],
-    "C09": [report_partition],
+    "C09": [report_partition, report_rule_listing],
+    "C15": [scope_resolution, param_rule_call],
 }
